@@ -598,6 +598,8 @@ class FnEffects:
                     for (l, cb) in list(pend):
                         if l == src:
                             pend.add((dst["local"], cb))
+                        elif l == ("res", src):
+                            pend.add((("res", dst["local"]), cb))
                     if src in self.snap and dst["local"] not in self.snap:
                         self.snap[dst["local"]] = self.snap[src]
                 # snapshot: local = copy of external place (by value)
@@ -635,6 +637,8 @@ class FnEffects:
                                 if l == a0["place"]["local"]:
                                     pend.add((dl, cb))
                                     inherited = True
+                                elif l == ("res", a0["place"]["local"]) and name.endswith("Try::branch"):
+                                    pend.add((("res", dl), cb))
                 # restore-from-snapshot kill
                 killed = self._restore_kills(t, written)
                 if is_res and dl is not None and not inherited and (ok or err):
@@ -671,6 +675,8 @@ class FnEffects:
                         for p in add:
                             w2.add(p)
                             self.witness[p].append((cb, "call %s l%d (%s edge)" % (cname, cl, "Ok" if v == 0 else "Err")))
+                        if v in (0, 1):
+                            p2 |= {(("res", l2), "ok" if v == 0 else "err") for (l2, cb2) in p2 if cb2 == cb and not isinstance(l2, tuple)}
                         p2 = {(l2, cb2) for (l2, cb2) in p2 if cb2 != cb}
                     succ_states.append((tb, w2, p2))
                     seen_targets.add(tb)
@@ -684,8 +690,10 @@ class FnEffects:
                         ok, err, cname, cl = call_info[cb]
                         if known_vals == {0}:
                             add = err
+                            p2 |= {(("res", l2), "err") for (l2, cb2) in p2 if cb2 == cb and not isinstance(l2, tuple)}
                         elif known_vals == {1}:
                             add = ok
+                            p2 |= {(("res", l2), "ok") for (l2, cb2) in p2 if cb2 == cb and not isinstance(l2, tuple)}
                         else:
                             add = ok | err
                         for p in add:
@@ -813,6 +821,12 @@ class FnEffects:
                 for (l, cb) in pend:
                     if l == pl["local"]:
                         return ("pend", cb)
+                # the outcome of the call that produced this value was already tested on the way here
+                res = {cb for (l, cb) in pend if l == ("res", pl["local"])}
+                if res == {"err"}:
+                    return "err"
+                if res == {"ok"}:
+                    return "ok"
             # return value copied from an external place: ret_copy summary
             eps = self.ext_paths_of_place(pl) if pl["proj"] else set()
             if len(eps) == 1:
@@ -846,7 +860,7 @@ class FnEffects:
         def flush(pend, exclude_cb=None):
             out = set()
             for (l, cb) in pend:
-                if cb == exclude_cb:
+                if cb == exclude_cb or isinstance(l, tuple):
                     continue
                 ok, err, cname, cl = ci[cb]
                 for p in ok | err:
